@@ -25,7 +25,10 @@ SPEC = Spec(
     pid="C13",
     lean_modules=["OtelVerif.Props.C13"],
     translators=[_schema_translator, go_translator("unmarshalhooks", "OtelVerif/Gen/UnmarshalHooks.lean"),
-                 go_translator("opaquemethods", "OtelVerif/Gen/Opaque.lean")],
+                 go_translator("opaquemethods", "OtelVerif/Gen/Opaque.lean"),
+                 go_translator("configvalidate", "OtelVerif/Gen/ConfigValidate.lean"),
+                 go_translator("validatewalk", "OtelVerif/Gen/ValidateWalk.lean"),
+                 go_translator("configsload", "OtelVerif/Gen/ConfigsLoad.lean")],
     harnesses=[
         Harness(name="walk", module="confmap/xconfmap", pkg="confmap/xconfmap",
                 files={"zz_verif_c13_walk_test.go": "c13/walk_test.go"},
@@ -47,7 +50,8 @@ SPEC = Spec(
     ],
     rule="walk: generated trees over a fixed family of Go node types (structs/slices/arrays/maps/leaves with value-receiver, "
          "pointer-receiver or no Validate; children in interface, typed-pointer, exported, unexported, squash-tagged and untagged fields; "
-         "map keys with their own Validate) through xconfmap.Validate; non-trivial = errors planted below a slice or map. "
+         "map keys with their own Validate) through xconfmap.Validate; the reported (path, error) set is compared exactly, and the ORDER of the reported errors too "
+         "whenever the tree has no map with two or more entries; non-trivial = errors planted below a slice or map. "
          "refs: generated otelcol.Config values (id sets 0..5, nil component configs, service extensions, 0-3 pipelines; two thirds start "
          "valid and get at most one planted defect) through xconfmap.Validate; non-trivial = rejected. "
          "dec: reflect-built struct types (pointers as optionals, slices, string-keyed maps, squash, '-', untagged and unexported fields) "
@@ -66,15 +70,23 @@ SPEC = Spec(
          "distinct = distinct op sequences (sha1 of the op lines).",
     trusted_base=[
         "Lean 4.33.0 kernel; axioms per theorem listed under axioms_per_theorem (subset of propext, Classical.choice, Quot.sound)",
-        "hand-written model of xconfmap.validate (VT trees), tied by exact differential on the multiset of (path, error) pairs",
-        "hand-written model of otelcol.Config.Validate / PipelineConfig.Validate / pipelines.Config.Validate; Go map iteration picks which "
-        "error of a phase is reported: the model returns the admissible set, the reported one is monitored for membership",
-        "translators/cmd/unmarshalhooks (go/ast): sha256 of the printed bodies of seven Unmarshal(*confmap.Conf) methods (queuebatch.Config, otlpreceiver.Config, "
-        "otlpexporter.Config, telemetry.Config and the three v0.3.0 migration types; theorem C13_hook_bodies_as_modelled)",
+        "model of xconfmap.validate (VT trees): the clause table of its `switch v.Kind()` is REGENERATED (translators/cmd/validatewalk, go/ast: kinds, own Validate() "
+        "first, descent into element / exported fields / elements / map keys then values) and its interpreter is proved equal to the hand model (C13_walk_regenerated); "
+        "callValidateIfPossible / fieldName / stringifyMapKey stay tied by the exact differential on the set AND (without multi-entry maps) the order of (path, error) pairs",
+        "model of otelcol.Config.Validate / PipelineConfig.Validate / pipelines.Config.Validate: the statement lists are REGENERATED (translators/cmd/configvalidate, go/ast: "
+        "every if / loop / accept test / returned message with its fmt.Errorf arguments, source order) and their interpreter is proved equal to the hand model "
+        "(C13_root_phases_regenerated, C13_pipe_phases_regenerated); Go map iteration picks which error of a phase is reported: the model returns the admissible set, "
+        "the reported one is monitored for membership; the error classes are assigned by the translator from the message texts (table in the translator)",
+        "translators/cmd/unmarshalhooks (go/ast): TRANSLATION of the bodies of queuebatch.Config / otlpreceiver.Config / otlpexporter.Config Unmarshal into the Hook language "
+        "(IsSet guards, alias, drop-to-nil, reset, sanitizeURLPath positions; Go field chains resolved to mapstructure key paths through the struct tags of the package; "
+        "theorem C13_hooks_regenerated: equal to the reviewed table hooksOfType) + sha256 of the printed bodies of these and of telemetry.Config and the three v0.3.0 "
+        "migration types (C13_hook_bodies_as_modelled)",
+        "translators/cmd/configsload (go/ast): the statements of configunmarshaler.Configs.Unmarshal before the loop and in the loop body as steps; interpreter over registers + "
+        "heap proved equal to loadAll (C13_load_regenerated); statements are matched by their printed text",
         "hand-written strictness model of mapstructure decoding as configured by confmap (ErrorUnused, squash, pointers, no weak typing), "
         "tied by exact differential (ok/error) on reflect-built types; mapstructure itself is library code",
-        "load model (fresh default object per id, overlay of the instance's own keys): the per-instance defaults fed to the model are the effective "
-        "configuration of the isolated component-level load (implementation-observed input, itself covered by the dec harness)",
+        "load model (fresh default object per id, overlay of the instance's own keys): the per-type defaults fed to the model are the PRISTINE factory defaults "
+        "flattened before anything is loaded (implementation-observed input); the driver computes the instances with the interpreter of the regenerated Configs.Unmarshal steps",
         "reflection translator harness/c13/schema_test.go (run by overlay inside cmd/otelcorecol, emits data only): key-space schema (squash inlined, "
         "hook kind per leaf), factory default and custom-Unmarshal positions of every otelcorecol component -> Gen/ConfigSchemas.lean; the decode/encode "
         "model (decodeV/encodeV) is tied on these schemas by exact differential in the load harness (written leaves and untouched defaults of every instance)",
@@ -87,6 +99,8 @@ SPEC = Spec(
         "`omitempty`: a written zero value is left out of the effective configuration; the zero test (reflect.Value.IsZero on the typed configuration) is an "
         "implementation-observed input of the flat overlay model; flagged only when the factory default is a non-zero value",
         "explicit YAML nulls are generated for optionals but judged only by the typed comparison and the load itself (the models have no null)",
+        "in the regenerated Config.Validate statements the feature gate test `!AllowNoPipelines.IsEnabled()` is taken as true (gate at its default) and the signal switch of "
+        "pipelines.Config.Validate is only compared with its reviewed clause list (C13_signal_switch_as_reviewed)",
         "the four custom Unmarshal methods of service::telemetry (telemetry.Config, v0.3.0 migration types) are fingerprinted and probed (unknown keys at 24 positions incl. list "
         "elements, 12 written settings) but not modelled; open finding C13/strict/unknown-key-panics-remain-interface-field (otelconf AdditionalProperties) is harness-level",
         "C13_strict (hand Schema language, tied by the dec differential) and C13_strict_ks / C13_strict_builtin (regenerated KS schemas) return no offending path: 'an error naming the "
